@@ -141,7 +141,14 @@ def check_cache_guarded(ck, cm: CacheModel, rule="C09.R3"):
             continue
         fa = FA(ck, m)
         regions = [w for w in fa.stmts((ast.With,)) if lock and any(self_attr(i.context_expr, lock) for i in w.items)]
-        if len(regions) < 2:
+        # calls (outside any lock region) to helpers that take the lock themselves are critical
+        # sections of their own
+        def in_region(n):
+            return any(fa.inside(n, w) for w in regions)
+        helper_sections = [c for c in fa.calls() if isinstance(c.func, ast.Attribute) and isinstance(c.func.value, ast.Name) and c.func.value.id == "self"
+                           and c.func.attr in guarded_whole and not in_region(c)
+                           and c.func.attr in (cm.evict.name, cm.insert.name, cm.mark_used.name, "_put_ref", "forget_call", "forget_function", "forget_everything")]
+        if len(regions) + len(helper_sections) < 2:
             continue
         def writes_in(w):
             out = []
@@ -158,7 +165,7 @@ def check_cache_guarded(ck, cm: CacheModel, rule="C09.R3"):
                     if isinstance(n.func.value, ast.Name) and n.func.value.id == "self" and n.func.attr in (cm.evict.name, cm.insert.name, cm.mark_used.name, "_put_ref"):
                         out.append(n)
             return out
-        wr = [w for w in regions if writes_in(w)]
+        wr = [w for w in regions if writes_in(w)] + helper_sections
         ok1 = len(wr) <= 1
         ck.ob(rule, m.qual + "::one-critical-section", ok1,
               "state is updated in a single critical section" if ok1 else
@@ -309,3 +316,7 @@ def check(ck):
     okf = any(isinstance(s, ast.Assign) and A.dotted(s.targets[0]) == "self._frames" and isinstance(s.value, ast.List) and not s.value.elts for s in ini.stmts(ast.Assign))
     ck.ob(R5, ini.key(None, "own-frame-list"), okf, "each CallStack owns a fresh frame list" if okf else
           "CallStack instances do not start with their own fresh frame list", ini.where())
+    # ---- R6: readers that run outside the per-call mutex (the batch pre-check) never observe a
+    # published name whose object is still being written
+    from .c08 import check_write_order
+    check_write_order(ck, "C09.R6", only_output=True)
